@@ -20,11 +20,16 @@ def is_mutable_value(e: ast.expr) -> bool:
     return False
 
 
+CLASS_CREATION_HOOKS = ("__init_subclass__", "__set_name__", "__class_getitem__")
+
+
 def name_mutations(p: Program, names: set) -> Dict[str, List[str]]:
     """where a (module- or class-level) name is mutated in place or rebound: X.append(..), X[k] = .., self.X[k] = ..,
     cls.X = .., ClassName.X = .., global X"""
     out: Dict[str, List[str]] = {n: [] for n in names}
     for m, f in functions_with_module(p):
+        if f.name in CLASS_CREATION_HOOKS:
+            continue        # runs once per class while the module is imported: not an operation of the program
         for n in ast.walk(f.node):
             if isinstance(n, ast.Global):
                 for g in n.names:
@@ -264,6 +269,8 @@ def global_state(p: Program) -> List[Tuple[str, str, str, str]]:
                 if is_mutable_value(d):
                     items.append(("mutable default argument", f.qualname, f"{m.rel()}:{f.node.lineno}", ast.unparse(d)))
             for n in ast.walk(f.node):
+                if f.name in CLASS_CREATION_HOOKS:
+                    break       # class-creation hooks run at import, once per class
                 if isinstance(n, ast.Global):
                     items.append(("global statement", f"{f.qualname}", f"{m.rel()}:{n.lineno}", ",".join(n.names)))
                 if isinstance(n, (ast.Assign, ast.AugAssign)):
